@@ -1,6 +1,8 @@
 import QV.Driver.Util
 import QV.Model.Reader
 import QV.Spec.Reader
+import QV.Model.Rdata
+import QV.Spec.Rdata
 
 /-!
   group `reader` — one line = one session:  `reader <msghex> <op>;<op>;…`
@@ -13,9 +15,12 @@ import QV.Spec.Reader
 namespace QV.Driver
 open QV QV.Wire QV.Reader QV.Spec
 
-/-- `Rdata::read` as used by the driver. Replaced by the RDATA model once it is available. -/
-def drvRdRead : RdRead := fun _ _ msg cur len =>
-  if cur + len ≤ msg.size then .ok (msg.extract cur (cur + len)).toList else .err "UnexpectedEom"
+/-- `Rdata::read` as used by the driver: the RDATA model of C18 -/
+def drvRdRead : RdRead := fun c t msg cur len =>
+  match Rdata.read c t msg cur len with
+  | .ok b => .ok b.toList
+  | .err e => .err e.toString
+  | .panic => .panic
 
 def showHdr (r : Reader) : String :=
   let f {α} (o : Out ReaderErr α) (s : α → String) : String := match o with
@@ -117,8 +122,9 @@ def specStep (rdspec : Nat → Nat → Bytes → Nat → Nat → Option (Option 
     | "mtc" => (s!"ok {pos}@{pos}", st)
     | _ => ("bad-op", st)
 
-/-- RDATA spec used by the reader's oracle; `none` = no opinion. Replaced once C18's spec is in. -/
-def drvRdSpec : Nat → Nat → Bytes → Nat → Nat → Option (Option (List UInt8)) := fun _ _ _ _ _ => none
+/-- RDATA spec used by the reader's oracle: the executable RFC reading of C18 (`specRead`) -/
+def drvRdSpec : Nat → Nat → Bytes → Nat → Nat → Option (Option (List UInt8)) := fun c t msg cur len =>
+  some (Spec.specRead c t msg cur len)
 
 def readerHandler : Handler := fun op args =>
   match op, args with
